@@ -30,14 +30,24 @@ Fixpoint join (sep : bytes) (l : list bytes) : bytes :=
   | x :: r => x ++ sep ++ join sep r
   end.
 
-(* ast.PrintValue *)
+(* ast.PrintValue.  Since the repair of rt-block-string-edge a block string whose content ends in a
+   quote or a backslash gets a line terminator before the closing delimiter (the pre-repair printer,
+   which wrote the content between the delimiters as it is, is in PreFix.v). *)
+Definition ends_quote_or_backslash (raw : bytes) : bool :=
+  match rev raw with
+  | c :: _ => (c =? 34) || (c =? 92)
+  | [] => false
+  end.
+Definition print_block_string (raw : bytes) : bytes :=
+  s_quote3 ++ raw ++ (if ends_quote_or_backslash raw then nl else []) ++ s_quote3.
+
 Fixpoint print_value (v : value) : bytes :=
   match v with
   | VVar n => 36 :: n
   | VInt raw => raw
   | VFloat raw => raw
   | VStr raw false => s_quote ++ raw ++ s_quote
-  | VStr raw true => s_quote3 ++ raw ++ s_quote3
+  | VStr raw true => print_block_string raw
   | VBool true => s_true
   | VBool false => s_false
   | VNull => s_null
